@@ -267,9 +267,9 @@ static bool oracle(const Conf &c, const SV &offer, const std::optional<SV> &fast
 
     if (!o.error.empty()) { fail("C05:unexpected-error", c, op, o); return false; }
     if (o.sent) {
-        // The two registered findings (known_findings.json) are reserved for their root cause: an offered, enabled name
-        // HT-<hash><hash>...-<cb> on which SaslHtMechanism::fromString's hash loop matches more than once, so that the
-        // mechanism used is HT-<last hash>-<cb>. Any other use of a disabled / unoffered mechanism gets its own key.
+        // chosen-disabled / chosen-not-offered are the keys of the defect fixed in /repo 0f385bc (known_findings.json,
+        // "fixed"): an offered, enabled name HT-<hash><hash>...-<cb> on which SaslHtMechanism::fromString's hash loop
+        // matched more than once, so that HT-<last hash>-<cb> was used. Any occurrence of any of these keys is a violation now.
         bool alias = htAlias(all, disabled, o.mech);
         if (has(disabled, o.mech)) { fail(alias ? "C05:chosen-disabled" : "C05:disabled-mechanism-used", c, op, o); return false; }
         if (!has(all, o.mech)) { fail(alias ? "C05:chosen-not-offered" : "C05:unoffered-mechanism-used", c, op, o); return false; }
@@ -470,10 +470,10 @@ static void orderings(Rng &rng, const std::vector<std::pair<Conf, int>> &confs, 
     }
 }
 
-// ------------------------------------------------------------------------------------------ corpus: minimized past findings, replayed first
+// ------------------------------------------------------------------------------------------ corpus: minimized past findings (fixed in /repo 0f385bc), replayed first
 static void corpus()
 {
-    // (1) the hash loop of SaslHtMechanism::fromString matches twice: the offered name is not the mechanism that is used
+    // (1) the hash loop of SaslHtMechanism::fromString matched twice: the offered name was not the mechanism that was used
     {
         Conf c; c.defaultDisabled = false; c.creds = mkCreds(false, 2, "None", false); c.universe = { "HT-SHA-256SHA-512-NONE" };
         Group g(c);
